@@ -542,6 +542,9 @@ func (m *fsImpl) exec(line string) string {
 		return okOrErr(vfs.Lchown(p(0), atoiS(a[1]), atoiS(a[2])))
 	case "chtimes":
 		t, _ := strconv.ParseInt(a[1], 10, 64)
+		if t == 0 { // the zero time.Time (only generated for the read-only wrapper)
+			return okOrErr(vfs.Chtimes(p(0), time.Time{}, time.Time{}))
+		}
 		m.mtimes[t] = true
 		return okOrErr(vfs.Chtimes(p(0), time.Unix(0, t), time.Unix(0, t)))
 	case "chdir":
